@@ -62,6 +62,8 @@ Spine(h, n, path) ==
     IF path = << >> \/ ~HasStep(h[n], Head(path)) THEN << n >>
     ELSE << n >> \o Spine(h, ChildOf(h, n, Head(path)), Tail(path))
 
+NodeAt(h, n, path) == LET sp == Spine(h, n, path) IN sp[Len(sp)]      \* the node a valid path leads to
+
 \* all non-empty valid canonical paths below n (to leaves AND to inner nodes: aset may replace a whole subtree)
 RECURSIVE PathsFrom(_, _)
 PathsFrom(h, n) ==
